@@ -410,6 +410,7 @@ def r5(ctx):
     c02.r8(MultiAlias(ctx, {"C02.R8": "C09.R5"}))
     # ... and once the head is on the wire a late failure never adds a second response (the handlers' late-error rule of C02.R4)
     c02.late_error(ctx, "C09.R5")
+    c02.late_oserror(ctx, "C09.R5")
     stores = [n for n in g.stmts(ast.Assign) if any(isinstance(t, ast.Attribute) and t.attr == "status" for t in n.ast.targets)]
     ctx.need(stores, "C09.R5: start_response never stores the status")
     for exc in (None, ("T", "V", "TB")):
